@@ -30,6 +30,10 @@ pub enum StubScn {
         /// drop (abandon) the call future of task t's k-th call after its first poll
         abandon: Vec<(u32, u32)>,
         preempt_permille: u32,
+        /// task t's k-th call is issued with a deadline that has already passed (the stub
+        /// promises its spreading for any sequence of calls, whatever their contexts say)
+        #[serde(default)]
+        expired: Vec<(u32, u32)>,
     },
     Hash {
         backends: usize,
@@ -92,7 +96,14 @@ pub fn gen(rng: &mut Rng) -> StubScn {
                     abandon.push((t, rng.below(tasks[t as usize] as u64) as u32));
                 }
             }
-            StubScn::RoundRobin { backends, tasks, latency, abandon, preempt_permille: *rng.pick(&[0u32, 100, 400, 800]) }
+            let mut expired = Vec::new();
+            if rng.chance(300) {
+                for _ in 0..rng.range(1, 4) {
+                    let t = rng.below(nt as u64) as u32;
+                    expired.push((t, rng.below(tasks[t as usize] as u64) as u32));
+                }
+            }
+            StubScn::RoundRobin { backends, tasks, latency, abandon, preempt_permille: *rng.pick(&[0u32, 100, 400, 800]), expired }
         }
         6 | 7 => StubScn::Hash {
             backends: rng.range(1, 5) as usize,
@@ -252,24 +263,29 @@ pub fn run(scn: &StubScn, tape: Tape) -> RunOutput {
             let mut tasks = Vec::new();
             let extra: Rc<RefCell<Vec<Violation>>> = Rc::new(RefCell::new(Vec::new()));
             match scn2 {
-                StubScn::RoundRobin { backends, tasks: per_task, latency, abandon, .. } => {
+                StubScn::RoundRobin { backends, tasks: per_task, latency, abandon, expired, .. } => {
                     let stubs: Vec<Backend> = (0..backends).map(|i| Backend { idx: i, sim: sim.clone(), yields: latency[i].0, sleep_ms: latency[i].1 }).collect();
                     let rr = RoundRobin::new(stubs);
                     for (t, n) in per_task.iter().enumerate() {
-                        let (rr, sim_t, n, abandon) = (rr.clone(), sim.clone(), *n, abandon.clone());
+                        let (rr, sim_t, n, abandon, expired) = (rr.clone(), sim.clone(), *n, abandon.clone(), expired.clone());
                         tasks.push(sim.spawn(&format!("caller{t}"), async move {
                             for k in 0..n {
                                 let req = (t as u64) * 100 + k as u64;
                                 sim_t.log(EvKind::Note { what: "rr_call", a: t as i64, b: req as i64 });
+                                let mut ctx = context::current();
+                                if expired.contains(&(t as u32, k)) {
+                                    ctx.deadline = sim_t.instant_at(sim_t.now_ms() - 5);
+                                    sim_t.count("probe.stub_call_with_expired_deadline");
+                                }
                                 if abandon.contains(&(t as u32, k)) {
                                     // poll the call once, then drop it
-                                    let mut fut = Box::pin(rr.call(context::current(), req));
+                                    let mut fut = Box::pin(rr.call(ctx, req));
                                     let _ = futures::poll!(fut.as_mut());
                                     sim_t.count("fault.stub_call_abandoned");
                                     drop(fut);
                                     continue;
                                 }
-                                let r = rr.call(context::current(), req).await;
+                                let r = rr.call(ctx, req).await;
                                 sim_t.log(EvKind::Note { what: "rr_done", a: req as i64, b: result_code(&r) });
                             }
                         }));
